@@ -3,7 +3,6 @@
 package main
 
 import (
-	"encoding/hex"
 	"fmt"
 	"strconv"
 	"sync/atomic"
@@ -23,6 +22,9 @@ func mutate(r *rng, b []byte) []byte {
 	}
 	n := 1 + r.intn(3)
 	for i := 0; i < n; i++ {
+		if len(out) == 0 {
+			break // an empty datagram is a case of its own
+		}
 		switch r.intn(11) {
 		case 0: // truncate
 			out = out[:r.intn(len(out)+1)]
@@ -81,9 +83,6 @@ func mutate(r *rng, b []byte) []byte {
 			out = out[:60000]
 		}
 	}
-	if len(out) == 0 {
-		out = []byte{0}
-	}
 	return out
 }
 
@@ -112,13 +111,17 @@ func runMalformed(c *ctx) {
 			s, _ := e.exec(ev)
 			g.observe(ev, s)
 		}
+		emptyAt := r.intn(nev)
 		for i := 0; i < nev && !e.dead; i++ {
 			ev := g.gen()
-			if ev.typ == "recv" && ev.kind != "junk" && r.chance(55) {
+			if ev.typ == "recv" && ev.kind != "junk" && (r.chance(55) || i == emptyAt) {
 				// a mutated copy of a valid datagram
 				b := mutate(r, e.buildDatagram(ev))
+				if i == emptyAt {
+					b = nil // the zero-length datagram
+				}
 				c.count("mutated." + ev.kind)
-				e.peers[ev.peer].WriteToUDP(b, e.srvAddr)
+				e.peers[ev.peer].WriteToUDP(b, e.srvAddr) // b may be empty: a zero-length UDP datagram
 				ok := e.fence(2 * time.Second)
 				e.drv.take()
 				e.drain()
@@ -128,7 +131,7 @@ func runMalformed(c *ctx) {
 				} else if !ok {
 					res = "noanswer"
 				}
-				c.emit("T mal.send %d %s = %s", ev.peer, hex.EncodeToString(b), res)
+				c.emit("T mal.send %d %s = %s", ev.peer, hexOrDash(b), res)
 				if res != "alive" {
 					e.dead = true
 				}
